@@ -32,7 +32,9 @@ type c16Dep struct {
 	maxAge      time.Duration
 }
 
-func (d c16Dep) String() string { return fmt.Sprintf("key=%s/cookie=%s/maxage=%s", d.key, d.cookie, d.maxAge) }
+func (d c16Dep) String() string {
+	return fmt.Sprintf("key=%s/cookie=%s/maxage=%s", d.key, d.cookie, d.maxAge)
+}
 
 func c16Middleware(d c16Dep, rootURL string) *samlsp.Middleware {
 	kp := samlgen.Key(d.key)
@@ -106,7 +108,9 @@ func init() {
 		Rule: "valid session and tracking tokens are minted through the real codecs for 2 key families x default/custom lifetime and cookie name; then the full catalogue of structure-aware edits: alg substitution (none/None/HS256-512 keyed with the public key in 3 encodings, RS/PS/ES 256-512) re-signed with the SP's own key, another key of the family and a key of the other family; header extras; every claim removed / altered / wrong JSON type / aud as array; " +
 			"marker swap (tracking token as session and vice versa); tokens of other deployments (same key other URL, other key same URL, only issuer or only audience differing); every single-byte flip and every truncation of the signature; 1..4 segments; padding/alphabet variants - each crossed with 7 clock positions around issue and expiry; plus attribute exposure and RequireAttribute over assertion shapes. " +
 			"Oracle: the wrapped handler runs iff the token is one the session codec minted and nbf <= now < exp. non-trivial = every token other than the minted one at issue time",
-		Bounds:      func(tier string) string { return "full catalogue x 7 clock positions x 4 deployments (quick: 2 deployments for the byte-level signature edits)" },
+		Bounds: func(tier string) string {
+			return "full catalogue x 7 clock positions x 4 deployments (quick: 2 deployments for the byte-level signature edits)"
+		},
 		Assumptions: []string{"custom SessionCodecs are out of scope", "the exact expiry second is DONT_CARE"},
 		Run:         runC16,
 		CapQuick:    5 * time.Minute,
